@@ -47,6 +47,8 @@ def decode_const(v):
     if t.startswith("np."):
         import numpy as np
 
+        if t[3:].startswith("int"):
+            return getattr(np, t[3:])(int(x))
         return getattr(np, t[3:])(float.fromhex(x))
     raise ValueError(v)
 
@@ -71,6 +73,7 @@ def programs(
     root_sorts=None,
     complex_sorts=("c64", "c128"),
     extra_pred=(),
+    np_int_consts=False,
 ):
     T = draw(st.sampled_from(list(main_sorts)))
     nsym = draw(st.integers(1, 3))
@@ -204,6 +207,9 @@ def programs(
                 v = ["float", "-0x0p+0"]
             if np_consts and draw(st.integers(0, 3)) == 0:
                 v = ["np." + draw(st.sampled_from(["float32", "float64", "float16"])), draw(st.sampled_from(["0x1p+0", "0x1.8p+1", "0x1p-1"]))]
+            if np_int_consts and draw(st.integers(0, 4)) == 0:
+                # integer-valued constants given as numpy integer scalars (not subclasses of int)
+                v = ["np." + draw(st.sampled_from(["int64", "int32"])), draw(st.sampled_from([0, 1, 2, 3, -1, 7]))]
             add(["const", v, like], sorts[like])
         elif choice == "named":
             like = pick(lambda s: s in ("f16", "f32", "f64") or (s == "f" and allow_named == "all"))
